@@ -7,14 +7,22 @@ memo obeying the memo laws; repeated queries never flip.
 Tie: (a) regenerated table coq/Generated/C08_Invalidation.v (fail-closed source scan); (b) correspondence of the
 model's graph (apply_all) and invalidation flags (inval_all) with the real cfg.Program on generated histories
 (graph snapshots through the public API; invalidation observed through the solver-metrics counter);
-(c) the property oracle itself: at every query a replica is rebuilt from scratch and asked the same question.
+(c) the property oracle itself: at every query a replica is rebuilt from scratch and asked the same question;
+(d) every solver LIFETIME (what one solver object was asked, in order) is replayed on the extracted Coq solver model
+(C07's Solver.solve = the `ask` of HistorySolver.v) threading one memo, on the graph read back from cfg.so: every
+answer compared.  On graphs with a CFG cycle the algorithm itself is history dependent (Props/C08.v
+history_independent_cyclic_refuted); a stale answer there is the listed finding iff the model gives exactly the
+long-lived answers AND the model's fresh solver gives exactly the replica's answer, otherwise it is a violation.
 """
 import json
 import os
 import re
+import subprocess
 import time
 
 import common
+import c07_graphs as G7
+import c07_loops as L7
 
 # ----------------------------------------------------------------------------------------------------------
 # (a) translator: which primitives reach InvalidateSolver  (fail-closed)
@@ -337,6 +345,16 @@ class Real:
   def n_solvers(self):
     return len(self.p.calculate_metrics().solver_metrics)
 
+  def readback(self):
+    """The solver-visible graph in the C07 description format (binding id = index; the iteration order of
+    Origin::source_sets is the one the implementation reports), the input of the extracted Coq solver model."""
+    nodes = [{"inc": [m.id for m in n.incoming], "cond": None if n.condition is None else n.condition.id}
+             for n in self.nodes]
+    bindings = [{"var": b.variable.id,
+                 "origins": [[o.where.id, [sorted(x.id for x in ss) for ss in o.source_sets]] for o in b.origins]}
+                for b in self.binds]
+    return {"nodes": nodes, "bindings": bindings}
+
   def snapshot(self):
     datas = {}
     nodes = [([x.id for x in n.incoming], [x.id for x in n.outgoing], None if n.condition is None else n.condition.id)
@@ -509,10 +527,12 @@ def generations_leg(n_gen, n_final):
   return stale, expected_gen, observed_gen, c.ops
 
 
-def replica_answer(ops, q):
+def replica_answer(ops, q, with_replica=False):
   rp = Real()
   for op in ops:
     rp.do(op)
+  if with_replica:
+    return rp.ask(q), rp
   return rp.ask(q)
 
 
@@ -559,22 +579,57 @@ def targeted_search(ops, k, budget_s=25.0):
   return None
 
 
+def q7(real, q):
+  """A C08 query in the C07 query format (the input format of the extracted solver model)."""
+  if q[0] in ("Has", "Vis"):
+    return ("H", q[1], list(q[2]))
+  return ("F", real.vars[q[2]].id, q[1], True)
+
+
+def a7(q, a):
+  """A live answer in the C07 answer format."""
+  if q[0] in ("Has", "Vis"):
+    return "1" if a else "0"
+  return "f:" + ",".join(str(i) for i in a)
+
+
 def run_history(h, check_inval=True):
   """Runs the history on a long-lived program; at every query compares with a replica.
-  Returns (mismatches [(index, q, stale, fresh)], inval_flags per op, final snapshot, op prims)."""
+  Returns (mismatches [(index, q, stale, fresh, lifetime index, position in the lifetime)], inval_flags per op,
+  final snapshot, number of queries, lifetimes).  A lifetime is what ONE solver object was asked, in order
+  (the invalidation probes included): {"desc": graph read back from the implementation before the operation that
+  dropped the solver, "qs": [C07 queries], "ans": [answers]}.  Whether an operation dropped the solver is
+  observed: a probe query before it (a solver is alive), one after it, and the program's solver-metrics count in
+  between (the count includes the live solver, so it grows exactly when the old solver was dropped).  The probes
+  are part of the history's semantics (they are asked of the long-lived program only) and are always made, so a
+  replay sees what the search saw; `check_inval` only says whether the flags are reported."""
   real = Real()
   ops = []
   mism = []
   flags = []
   nq = 0
+  lifetimes = []
+  life = {"desc": None, "qs": [], "ans": []}
+  def close(desc):
+    nonlocal life
+    if life["qs"]:
+      life["desc"] = desc
+      lifetimes.append(life)
+    life = {"desc": None, "qs": [], "ans": []}
   for i, (kind, x) in enumerate(h):
     if kind == "op":
-      if check_inval and real.binds and real.nodes:
-        real.binds[0].IsVisible(real.nodes[0])      # make sure a solver is alive
+      if real.binds and real.nodes:
+        a0 = real.binds[0].IsVisible(real.nodes[0])      # make sure a solver is alive
+        life["qs"].append(("H", 0, [0])); life["ans"].append("1" if a0 else "0")
+        desc = real.readback()
         before = real.n_solvers()
         real.do(x)
-        real.binds[0].IsVisible(real.nodes[0])
-        flags.append(real.n_solvers() > before)
+        a1 = real.binds[0].IsVisible(real.nodes[0])
+        dropped = real.n_solvers() > before
+        if dropped:
+          close(desc)
+        life["qs"].append(("H", 0, [0])); life["ans"].append("1" if a1 else "0")
+        flags.append(dropped if check_inval else None)
       else:
         real.do(x)
         flags.append(None)
@@ -582,10 +637,131 @@ def run_history(h, check_inval=True):
     else:
       nq += 1
       a = real.ask(x)
-      b = replica_answer(ops, x)
+      life["qs"].append(q7(real, x)); life["ans"].append(a7(x, a))
+      b, rp = replica_answer(ops, x, with_replica=True)
       if a != b:
-        mism.append((i, x, a, b))
-  return mism, flags, real.snapshot(), nq
+        # the replica's OWN graph: Origin::source_sets iterates in raw-pointer order, which may differ from the
+        # long-lived program's (and from another replica's)
+        mism.append((i, x, a, b, len(lifetimes), len(life["qs"]) - 1, rp.readback()))
+  close(real.readback())
+  return mism, flags, real.snapshot(), nq, lifetimes
+
+
+def loop_scope_leg(cases):
+  """The exhaustive loop scope, directly on cfg.Program (c07_graphs.Impl): per graph ONE long-lived program answers
+  every lifetime (an 'R' drops the solver through a graph-preserving Binding.AddOrigin); the replica of a query is a
+  program rebuilt from scratch that is asked only that query (one per distinct query - a fresh program's answer
+  does not depend on anything else).  Returns (stale [(name, desc, lifetime queries up to the stale one, q, live,
+  replica)], lifetimes [{"desc","qs","ans"}], number of queries)."""
+  stale = []
+  lifetimes = []
+  nq = 0
+  for name, d, qs in cases:
+    im = G7.Impl(d)
+    live = im.run(qs)
+    fresh = {}
+    life = None
+    ai = 0
+    for q in qs:
+      if q[0] == "R":
+        if life and life["qs"]:
+          lifetimes.append(life)
+        life = {"desc": im.desc, "qs": [], "ans": []}
+        continue
+      if life is None:
+        life = {"desc": im.desc, "qs": [], "ans": []}
+      a = live[ai]; ai += 1
+      nq += 1
+      hq = ("H", q[1], list(q[2]))
+      life["qs"].append(hq); life["ans"].append(a)
+      key = (q[1], tuple(q[2]))
+      if key not in fresh:
+        fi = G7.Impl(d)
+        fresh[key] = (fi.run([q])[0], fi.desc)
+      if a != fresh[key][0]:
+        stale.append((name, im.desc, list(life["qs"]), hq, a, fresh[key][0], life, len(life["qs"]) - 1, fresh[key][1]))
+    if life and life["qs"]:
+      lifetimes.append(life)
+  return stale, lifetimes, nq
+
+
+# ----------------------------------------------------------------------------------------------------------
+# the extracted Coq solver model (C07's Solver.v, the `ask` of HistorySolver.v) on solver lifetimes
+
+SOLVER_DRIVER = os.path.join(common.VERIF, "harness", "ocaml", "solver_driver.ml")
+_EXE = [None]
+AS_MODELLED = "history-dependent:cyclic:memo-as-modelled"
+
+
+def solver_model_exe():
+  if _EXE[0] is None:
+    _EXE[0] = common.build_extracted("solver", "Extract/ExtractSolver.v", SOLVER_DRIVER, ["solver_model"])
+  return _EXE[0]
+
+
+_PROC = [None]
+
+
+def model_lifetimes(lines):
+  """Each line: a graph followed by queries answered by ONE threaded solver state.  Returns the answer lists.
+  One long-lived model process serves every call (process start-up is the expensive part)."""
+  out = []
+  for ln in lines:
+    for attempt in (0, 1):
+      try:
+        if _PROC[0] is None:
+          _PROC[0] = G7.ModelProc(solver_model_exe())
+        out.append(_PROC[0].ask(ln))
+        break
+      except Exception as e:  # pylint: disable=broad-except
+        _PROC[0] = None
+        if attempt:
+          raise RuntimeError("solver model failed: %r" % e)
+  return out
+
+
+def as_modelled(life, pos, q, replica, rdesc=None):
+  """Is this history dependence the one the Coq model of solver.cc has (Props/C08.v
+  history_independent_cyclic_refuted)?  Yes iff the graph has a CFG cycle, the model threading one solver state
+  through the lifetime's questions gives exactly the long-lived program's answers up to and including this one,
+  AND the model's fresh solver gives exactly the replica's answer."""
+  d = life["desc"]
+  if G7.is_acyclic(d):
+    return False
+  qs = life["qs"][:pos + 1]
+  try:
+    threaded, fresh = model_lifetimes([G7.model_line(d, qs), G7.model_line(rdesc or d, [qs[-1]])])
+  except Exception:  # pylint: disable=broad-except
+    return False
+  return threaded == life["ans"][:pos + 1] and fresh == [a7(q, replica)]
+
+
+_CLASS_CACHE = {}
+
+
+def as_modelled_batch(life, pos, q, replica_a7, rdesc=None):
+  """as_modelled for the direct loop leg (answers already in the C07 format); cached per (graph, question prefix)."""
+  d = life["desc"]
+  if G7.is_acyclic(d):
+    return False
+  qs = life["qs"][:pos + 1]
+  key = (json.dumps(d, sort_keys=True), json.dumps(qs), json.dumps(rdesc, sort_keys=True))
+  if key not in _CLASS_CACHE:
+    try:
+      _CLASS_CACHE[key] = tuple(map(tuple, model_lifetimes([G7.model_line(d, qs),
+                                                            G7.model_line(rdesc or d, [qs[-1]])])))
+    except Exception:  # pylint: disable=broad-except
+      _CLASS_CACHE[key] = None
+  r = _CLASS_CACHE[key]
+  return r is not None and list(r[0]) == life["ans"][:pos + 1] and list(r[1]) == [replica_a7]
+
+
+def fingerprint_of(h, m, lifetimes):
+  i, q, a, b, li, pos, rdesc = m
+  if li < len(lifetimes) and as_modelled(lifetimes[li], pos, q, b, rdesc):
+    return AS_MODELLED
+  last_op = [x for k, x in h[:i + 1] if k == "op"][-1][0]
+  return f"stale-answer-after:{last_op}"
 
 
 # ----------------------------------------------------------------------------------------------------------
@@ -674,12 +850,21 @@ def run(res):
   res.rule = ("histories of API-level typegraph operations (NewCFGNode/ConnectNew/ConnectTo/NewVariable/AddBinding with and "
               "without origin/Binding.AddOrigin/PasteBinding/PasteVariable/PasteBindingWithNewData/AssignToNewVariable/"
               "node.condition=...) with >=1 visibility query (IsVisible/HasCombination/Filter) between mutations; styles: "
-              "acyclic / cyclic x with / without conditions. A history is non-trivial if it contains a query after a "
-              "graph-changing mutation that followed an earlier query; distinct by its op list.")
+              "acyclic / cyclic x with / without conditions; plus the family 'loops with loop-carried, mutually dependent "
+              "source sets' (c07_loops: 1-3 variables updated in the loop body from each other and from pre-loop "
+              "definitions, optional conditions, both binding allocation orders, several query orders inside one solver "
+              "lifetime, several lifetimes per graph) as random members and as a small exhaustive scope (4-node loop, "
+              "every source-set choice over {c,e}/{b,e}, every allocation order, every ordered pair - thorough: triple, "
+              "and the 5-node loop - of single-goal queries over {b,c} x {head, body, exit} per lifetime). A history is "
+              "non-trivial if it contains a query after a graph-changing mutation that followed an earlier query; "
+              "distinct by its op list.")
   res.assumptions = [
       "the real solver reads only the solver-visible graph (nodes, edges, conditions, bindings, origins, source sets)",
-      "solver-internal memo obeys the memo laws (Good): proved for the whole-query cache instance, for the real "
-      "sub-state memo it is what the replica differential checks (cyclic graphs: provisional entries) — partial",
+      "solver-internal memo obeys the memo laws (Good): proved for the whole-query cache instance and for the real "
+      "sub-state memo on acyclic condition-free graphs; on cyclic graphs the laws are REFUTED for the real memo "
+      "(history_independent_cyclic_refuted) - there the replica differential decides, and a stale answer is "
+      "classified as the listed finding only if the extracted Coq solver model reproduces both the long-lived "
+      "and the fresh answers",
       "MAX_VAR_SIZE collapse to default data not modelled (histories keep variables small)",
       "C++ source scan (regex + brace matching) in harness/props/c08.py is trusted to read the table faithfully; fail-closed"]
   # (a) regenerate the table
@@ -703,40 +888,74 @@ def run(res):
     hs.append((f"h{i}", gen_history(r, r.randint(4, 26), cyclic=(i % 2 == 1), with_cond=(i % 4 >= 2))))
   for i in range(24 if thorough else 8):
     hs.append((f"deep{i}", gen_deep_history(r, r.choice([66, 70, 90, 130]) if i % 2 == 0 else r.randint(20, 150), sat=(i % 4 == 3))))
+  # loops with loop-carried, mutually dependent source sets (c07_loops): random members + the small exhaustive scope
+  n_loop = 2400 if thorough else 500
+  for i in range(n_loop):
+    d7, q7s = L7.random_case(r, want_cond=(i % 3 == 2))
+    hs.append((f"mloop{i}", L7.to_history(d7, q7s)))
+  xl = (L7.exhaustive_cases(shapes=("std", "deep"), lifetimes=(2, 3)) if thorough
+        else L7.exhaustive_cases(shapes=("std",), lifetimes=(2,)))
+  res.extra["loop_family"] = {"random": n_loop, "exhaustive_scope_graphs": len(xl)}
+  try:
+    solver_model_exe()
+  except common.BuildError as e:
+    res.obligation("solver-model-build", False, str(e)[-2000:])
+    return "proof"
+  res.trusted_base += ["Coq extraction (ExtrOcamlBasic only) + OCaml 4.13.1 ocamlopt + harness/ocaml/solver_driver.ml"]
   t0 = time.time()
   cases = []
   expected = {}
   n_queries = 0
   n_stale = 0
+  n_unlisted = 0
   op_kinds = {}
   inval_seen = {"invalidating": 0, "non_invalidating": 0}
+  life_lines = []            # every solver lifetime of every history, for the solver-model correspondence
+  life_meta = []
+  stale_classes = {}
   for name, h in hs:
-    mism, flags, snap, nq = run_history(h)
+    mism, flags, snap, nq, lifetimes = run_history(h)
     n_queries += nq
-    mir = Mirror()
-    apis = [decompose(mir, x) for k, x in h if k == "op"]
     for k, x in h:
       if k == "op":
         op_kinds[x[0]] = op_kinds.get(x[0], 0) + 1
     for f in flags:
       if f is not None:
         inval_seen["invalidating" if f else "non_invalidating"] += 1
-    cases.append((name, apis))
-    expected[name] = (flags, snap)
+    if not name.startswith("mloop") or int(name[5:]) < 40:
+      # graph + invalidation-flag correspondence with History.v (vm_compute in coqc: the loop family is about the
+      # solver's memo, not about graph construction - a sample of it is enough here)
+      mir = Mirror()
+      apis = [decompose(mir, x) for k, x in h if k == "op"]
+      cases.append((name, apis))
+      expected[name] = (flags, snap)
+    for li, lf in enumerate(lifetimes):
+      life_lines.append(G7.model_line(lf["desc"], lf["qs"]))
+      life_meta.append((name, li, lf))
     # non-trivial: a query, then a mutation, then a query
     kinds = "".join("q" if k == "q" else "m" for k, _ in h)
     res.count(tuple(map(str, h)) if re.search(r"qm+q", kinds) else None)
     if len(res.samples) < 2:
       res.sample({"history_prefix": [list(map(str, x)) for x in h[:12]], "queries": nq})
-    for (i, q, a, b) in mism:
+    for m in mism:
+      (i, q, a, b, li, pos, _rd) = m
       n_stale += 1
+      fp = fingerprint_of(h, m, lifetimes)
+      stale_classes[fp] = stale_classes.get(fp, 0) + 1
+      what = f"query {q} answered {a} by the long-lived program but {b} by a freshly built replica"
+      if fp in res.known:
+        res.violation(fp, what, None)           # listed finding: printed as KNOWN-FINDING, does not fail the run
+        continue
+      n_unlisted += 1
       if len(res.violations) >= 3:
-        break
-      # shrink: drop ops/queries while the stale answer persists
-      small = shrink_history(h[:i + 1])
-      last_op = [x for k, x in small if k == "op"][-1][0]
-      res.violation(f"stale-answer-after:{last_op}",
-                    f"query {q} answered {a} by the long-lived program but {b} by a freshly built replica",
+        continue
+      # shrink: drop ops/queries while a stale answer of the same class persists
+      small = shrink_history(h[:i + 1], fp)
+      if fp != AS_MODELLED:
+        fp = "stale-answer-after:" + [x for k, x in small if k == "op"][-1][0]
+      res.violation(fp, what + (" (no mutation since the solver was created; the Coq model of solver.cc does NOT "
+                                "give these answers)" if fp.startswith("stale-answer-after") and li < len(lifetimes)
+                                and not G7.is_acyclic(lifetimes[li]["desc"]) else ""),
                     {"history": small, "query": q, "long_lived": a, "replica": b})
   # (a') many solver generations on one program
   n_gen = 6000 if thorough else 1300
@@ -754,9 +973,58 @@ def run(res):
                    "note": "linear chain: ('CN',) = last = last.ConnectNew(); ('AB', d) = v.AddBinding('data<d>', [], last); "
                            "v.Filter(last) after every AddBinding of the warm-up; only the last 40 ops are listed, the "
                            "warm-up op sequence is CN, NV repeated (NV = fresh variable bound at the last node, then Filter)"})
-  res.obligation("oracle:long-lived==replica at every query", n_stale == 0, f"{n_stale} stale answers")
+  timing = {"histories_s": round(time.time() - t0, 1)}
+  res.extra["timing"] = timing
+  # the exhaustive loop scope (direct leg: one long-lived program per graph, a rebuilt replica per distinct query)
+  t1 = time.time()
+  x_stale, x_lifetimes, x_nq = loop_scope_leg(xl)
+  timing["loop_scope_impl_s"] = round(time.time() - t1, 1)
+  n_queries += x_nq
+  for li, lf in enumerate(x_lifetimes):
+    life_lines.append(G7.model_line(lf["desc"], lf["qs"]))
+    life_meta.append(("xloop", li, lf))
+  for name, d7, lqs, q, a, b, lf, pos, rdesc in x_stale:
+    n_stale += 1
+    q8 = ("Has", q[1], list(q[2]))
+    fp = AS_MODELLED if as_modelled_batch(lf, pos, q, b, rdesc) else "stale-answer-after:AddOrigin"
+    stale_classes[fp] = stale_classes.get(fp, 0) + 1
+    what = (f"query {q8} answered {a} by the long-lived program but {b} by a freshly built replica "
+            f"(loop scope {name})")
+    if fp in res.known:
+      res.violation(fp, what, None)
+      continue
+    n_unlisted += 1
+    if len(res.violations) >= 3:
+      continue
+    res.violation(fp, what + " (no mutation since the solver was created; the Coq model of solver.cc does NOT "
+                  "give these answers)",
+                  {"history": L7.to_history(d7, lqs), "query": q8, "long_lived": a == "1", "replica": b == "1"})
+  res.extra["stale_answer_classes"] = stale_classes
+  res.obligation("oracle:long-lived==replica at every query (listed findings excepted)", n_unlisted == 0,
+                 f"{n_unlisted} stale answers outside the listed findings ({n_stale} in all: {stale_classes})")
+  # (a'') every solver lifetime vs the extracted Coq solver model threading one state (Solver.solve; the `ask` of
+  # HistorySolver.v): ties history_independent_real_solver and the cyclic-graph theorems to cfg.so inside C08
+  try:
+    t1 = time.time()
+    mans = model_lifetimes(life_lines)
+    timing["solver_model_lifetimes_s"] = round(time.time() - t1, 1)
+    bad_l = [(meta, mo) for meta, mo in zip(life_meta, mans) if mo != meta[2]["ans"]]
+    detail = ""
+    if bad_l:
+      (nm, li, lf), mo = bad_l[0]
+      detail = (f"{len(bad_l)} of {len(life_meta)} lifetimes differ; first: history {nm} lifetime {li}: graph="
+                f"{json.dumps(lf['desc'])} queries={json.dumps(lf['qs'])[:800]} cfg.so={' '.join(lf['ans'])[:300]} "
+                f"model={' '.join(mo)[:300]}")
+    res.obligation("correspondence:solver lifetimes (memo threaded) vs Coq Solver.solve", not bad_l, detail)
+  except RuntimeError as e:
+    res.obligation("correspondence:solver lifetimes (memo threaded) vs Coq Solver.solve", False, str(e))
+  res.extra["solver_lifetimes_compared"] = len(life_meta)
+  res.extra["solver_lifetime_answers_compared"] = sum(len(m[2]["ans"]) for m in life_meta)
+  res.extra["solver_lifetimes_cyclic"] = sum(1 for m in life_meta if not G7.is_acyclic(m[2]["desc"]))
   # (b) model correspondence
+  t1 = time.time()
   model, errors = model_cases(cases)
+  timing["history_model_coqc_s"] = round(time.time() - t1, 1)
   res.obligation("model-run(cases.v)", not errors, "\n".join(errors)[:3000])
   n_bad = 0
   first = ""
@@ -817,14 +1085,19 @@ def run(res):
   return "proof"
 
 
-def shrink_history(h, budget_s=20.0):
-  """Drop ops/queries while the last query stays stale (ids must stay valid: only try removing queries and
-  trailing-independent ops; failures to execute count as 'not failing')."""
+def shrink_history(h, fp=None, budget_s=20.0):
+  """Drop ops/queries while the last query stays stale with the same fingerprint class (as-modelled or not); ids
+  must stay valid: failures to execute count as 'not failing'."""
   deadline = time.time() + budget_s
+  want_modelled = (fp == AS_MODELLED)
   def bad(c):
     try:
-      mism, _, _, _ = run_history(c, check_inval=False)
-      return bool(mism) and mism[-1][0] == len(c) - 1
+      mism, _, _, _, lifetimes = run_history(c)
+      if not (mism and mism[-1][0] == len(c) - 1):
+        return False
+      if fp is None:
+        return True
+      return (fingerprint_of(c, mism[-1], lifetimes) == AS_MODELLED) == want_modelled
     except Exception:  # pylint: disable=broad-except
       return False
   cur = list(h)
@@ -842,10 +1115,28 @@ def shrink_history(h, budget_s=20.0):
 
 
 def replay(res, path):
+  """Re-runs the stored history.  Origin::source_sets iterates in raw-pointer order, so what the solver does with a
+  history can depend on where the allocator put the bindings: the history is run up to 12 times with the heap
+  perturbed in between (earlier programs and some junk are kept alive); one failing run is a failure."""
   common.bootstrap_pytype()
   d = json.load(open(path))
-  h = [(k, tuple(x) if k == "op" else (x[0], x[1], x[2])) for k, x in d["replay"]["history"]]
-  mism, _, _, _ = run_history(h, check_inval=False)
-  for m in mism:
-    print("stale:", m)
-  return 1 if mism else 0
+  rp = d.get("replay") or d
+  h = [(k, tuple(x) if k == "op" else (x[0], x[1], x[2])) for k, x in rp["history"]]
+  keep = []
+  for attempt in range(12):
+    mism, _, _, _, lifetimes = run_history(h)
+    bad = 0
+    for m in mism:
+      try:
+        fp = fingerprint_of(h, m, lifetimes)
+      except Exception as e:  # pylint: disable=broad-except
+        fp = "unclassified (%r)" % e
+      print("attempt %d stale:" % attempt, m[:4], "class:", fp)
+      if fp not in res.known:
+        bad += 1
+    if bad:
+      return 1
+    junk = Real(); junk.do(("NewNode", None)); junk.do(("NewVariable",)); junk.do(("AddBinding", 0, 0))
+    keep.append((junk, [object() for _ in range(7 * attempt + 3)]))
+  print("no unlisted stale answer in 12 runs")
+  return 0
